@@ -483,6 +483,138 @@ fn concurrent_check(x: &crate::sched::Execution) -> Vec<(String, String)> {
     bad
 }
 
+
+/// Entries that are symbolic links to regular files (a read-only level deployed as a link farm over a
+/// content-addressed store, or a value handed to `set` as a link): a link is a copy like any other.  Stacks of up to
+/// three levels, each holding nothing / a regular copy / a linked copy (every level its own value), under get, touch
+/// and ensure: the first copy found is returned (ensure: without populating), touch reports it, and the mark lands
+/// on the first copy only.
+fn symlinked_copy_section(shard: Shard, rep: &mut Report) {
+    use crate::ops::{self, Front, Op, Pop, StackCfg};
+    use crate::world::{Scratch, Size, Val};
+    let writers: [Option<Front>; 3] = [None, Some(Front::Plain), Some(Front::Sharded(NSHARDS))];
+    let reader_sets: Vec<Vec<Front>> = vec![vec![], vec![Front::Plain], vec![Front::Sharded(NSHARDS)], vec![Front::Plain, Front::Plain], vec![Front::Plain, Front::Sharded(NSHARDS)], vec![Front::Sharded(NSHARDS), Front::Plain]];
+    let mut no = 0u64;
+    for w in writers {
+        for readers in &reader_sets {
+            let levels: Vec<Front> = w.iter().copied().chain(readers.iter().copied()).collect();
+            if levels.is_empty() {
+                continue;
+            }
+            for code in 0..3u32.pow(levels.len() as u32) {
+                let contents: Vec<u8> = (0..levels.len()).map(|i| ((code / 3u32.pow(i as u32)) % 3) as u8).collect();
+                if !contents.contains(&2) {
+                    continue; // no linked copy: the main matrix
+                }
+                for opno in 0..3u8 {
+                    if opno == 2 && w.is_none() && false {
+                        continue;
+                    }
+                    no += 1;
+                    if !shard.mine(no) {
+                        continue;
+                    }
+                    let opname = ["get", "touch", "ensure"][opno as usize];
+                    let case = serde_json::json!({"symlinked": true, "writer": w.map(|f| f.label()), "readers": readers.iter().map(|f| f.label()).collect::<Vec<_>>(), "contents": contents, "op": opname});
+                    crate::run::reset_env();
+                    let sc = Scratch::new();
+                    let dirs = ops::Dirs::under(&sc.root, readers.len());
+                    let old = crate::run::base_time_ns() as i128 - 86_400_000_000_000;
+                    let mut level_dirs = Vec::new();
+                    if w.is_some() {
+                        level_dirs.push(dirs.write.clone());
+                    }
+                    level_dirs.extend(dirs.reads.iter().cloned());
+                    let k = the_key();
+                    // where a copy's bytes live: the entry itself, or the file it links to
+                    let mut payloads: Vec<Option<std::path::PathBuf>> = Vec::new();
+                    for (i, (&front, &c)) in levels.iter().zip(contents.iter()).enumerate() {
+                        crate::shim::passthrough(|| std::fs::create_dir_all(&level_dirs[i]).unwrap());
+                        if c == 0 {
+                            payloads.push(None);
+                            continue;
+                        }
+                        let entry = ops::candidate_dirs(&level_dirs[i], front, &k)[0].join("key");
+                        let v = Val::new(i as u8, Size::Five);
+                        let m = old - (i as i128) * 1_000_000_000;
+                        if c == 1 {
+                            world::plant(&entry, &v.bytes(), 0o444, m - 120_000_000_000, m);
+                            payloads.push(Some(entry));
+                        } else {
+                            let payload = sc.path(&format!("store/blob{}", i));
+                            world::plant(&payload, &v.bytes(), 0o444, m - 120_000_000_000, m);
+                            crate::shim::passthrough(|| {
+                                std::fs::create_dir_all(entry.parent().unwrap()).unwrap();
+                                std::os::unix::fs::symlink(&payload, &entry).unwrap();
+                            });
+                            world::set_times(&entry, m - 120_000_000_000, m);
+                            payloads.push(Some(payload));
+                        }
+                    }
+                    let cfg = StackCfg { writer: w.map(|f| (f, writer_capacity(f))), readers: readers.clone(), checker: ops::Checker::None, auto_sync: true };
+                    let cache = ops::build(&cfg, &dirs, None);
+                    let before: Vec<Option<world::Meta>> = payloads.iter().map(|p| p.as_ref().and_then(|p| world::lstat(p))).collect();
+                    let op = match opno {
+                        0 => Op::Get(k.clone()),
+                        1 => Op::Touch(k.clone()),
+                        _ => Op::Ensure(k.clone(), Pop::Value(Val::new(9, Size::One))),
+                    };
+                    let (o, trace) = crate::run::as_participant(0, 0, || ops::exec(&cache, &dirs, &op, &Default::default()));
+                    rep.evaluations += 1;
+                    rep.states += 1;
+                    rep.traces += 1;
+                    rep.transitions += trace.len() as u64;
+                    rep.count("symlinked_copy_cases", 1);
+                    rep.count("nontrivial_count", 1);
+                    let o = match o {
+                        Ok(o) => o,
+                        Err(p) => {
+                            rep.violation("stack:symlinked-copy", format!("{}: panicked: {}", case, p), case.clone());
+                            continue;
+                        }
+                    };
+                    let after: Vec<Option<world::Meta>> = payloads.iter().map(|p| p.as_ref().and_then(|p| world::lstat(p))).collect();
+                    let first = contents.iter().position(|&c| c != 0).unwrap();
+                    let want = Val::new(first as u8, Size::Five).bytes();
+                    let mut bad: Vec<String> = Vec::new();
+                    match (opno, &o.res) {
+                        (0, Res::Hit(b)) | (2, Res::Hit(b)) if *b == want => {}
+                        (1, Res::Bool(true)) => {}
+                        (_, r) => bad.push(format!("returned {}, the first copy (level {}) holds {}", r.label(), first, world::describe_bytes(&want))),
+                    }
+                    if opno == 2 && o.populate_calls != 0 && !(w.is_some() && first > 0 && false) {
+                        // ensure = get_or_update with Promote on a read-side hit and Accept on a write-side hit: no populate
+                        bad.push(format!("populate was called {} times although a copy exists", o.populate_calls));
+                    }
+                    for (i, (b, a)) in before.iter().zip(after.iter()).enumerate() {
+                        let (b, a) = match (b, a) {
+                            (Some(b), Some(a)) => (b, a),
+                            (None, None) => continue,
+                            _ => {
+                                bad.push(format!("the copy of level {} appeared or disappeared", i));
+                                continue;
+                            }
+                        };
+                        if a.mtime != b.mtime {
+                            bad.push(format!("the copy of level {} was re-stamped", i));
+                        }
+                        if i == first {
+                            if a.atime <= b.atime {
+                                bad.push(format!("the first copy (level {}) was not marked as used", i));
+                            }
+                        } else if a.atime != b.atime {
+                            bad.push(format!("the copy of level {} (not the first one) was marked", i));
+                        }
+                    }
+                    if let Some(m) = bad.first() {
+                        rep.violation("stack:symlinked-copy", format!("{}: {}", case, m), case.clone());
+                    }
+                }
+            }
+        }
+    }
+}
+
 pub fn run(_tier: Tier, shard: Shard, rep: &mut Report) {
     set_tier(_tier);
     rep.rule = "full matrix: write side {none, plain, sharded(3)} x read-only list {[], [p], [s], [p,p], [p,s], [s,p], [s,s]} x \
@@ -492,7 +624,8 @@ pub fn run(_tier: Tier, shard: Shard, rep: &mut Report) {
         and the hit actions again with a byte-equality checker and populate {value of the first copy, other value, NotFound} (and, for every lookup cell with a later copy, the first copy's open failing with EACCES/EIO/EMFILE: the lookup must fail \
         rather than resolve further down the stack); oracle = stack-resolution reference model on result, judge arguments, populate arguments, per-level before/after \
         snapshots, trace (no level after the first hit is touched), temp-file and source residue. Plus: get_or_update with Replace racing with another writer of the same key (all \
-        schedules with <= 2 preemptions): it must return the value it populated. Non-trivial = >= 2 levels and at least one copy present."
+        schedules with <= 2 preemptions): it must return the value it populated. Plus stacks of up to three levels where copies are symbolic links to regular files \
+        (nothing / regular / linked per level, get, touch, ensure): a linked copy is a copy. Non-trivial = >= 2 levels and at least one copy present."
         .into();
     rep.assumptions = vec!["value identities A/B/C are 5-byte/1-byte files; sizes are varied in C03/C01".into()];
     let all = cells();
@@ -506,6 +639,7 @@ pub fn run(_tier: Tier, shard: Shard, rep: &mut Report) {
         }
     }
     rep.fact("cells_total", serde_json::json!(all.len()));
+    symlinked_copy_section(shard, rep);
     let progs = concurrent_programs();
     let mut chk = |_pi: usize, x: &crate::sched::Execution| concurrent_check(x);
     crate::props::e1::explore_all("C13", &progs, shard, rep, &|_| crate::sched::RunOpts::default(), &mut chk, 500_000);
@@ -516,6 +650,10 @@ pub fn replay(case: &Value, rep: &mut Report) {
         let progs: Vec<crate::sched::Program> = concurrent_programs().into_iter().map(|p| p.0).collect();
         let mut chk = |x: &crate::sched::Execution| concurrent_check(x);
         crate::props::e1::replay_case("C13", &progs, case, rep, &|| crate::sched::RunOpts::default(), &mut chk);
+        return;
+    }
+    if case.get("symlinked").is_some() {
+        symlinked_copy_section(Shard { index: 0, count: 1 }, rep);
         return;
     }
     if case.get("cell").is_some() {
